@@ -100,6 +100,8 @@ package config
 //@ pred NsSelUpTo(p metallbv1beta1.IPAddressPool, namespaces []corev1.Namespace, n int, x string) := exists j int, k int :: 0 <= j && j < n && 0 <= k && k < len(namespaces) && namespaces[k].Name == x
 //@         && metav1.AsSel(p.Spec.AllocateTo.NamespaceSelectors[j]).Matches(labels.Set(namespaces[k].Labels))
 //@ func addressPoolServiceAllocationsFromCR
+//@   assert before LabelSelectorAsSelector#1: [canonicalFirst] called(validateLabelSelectorDuplicate)
+//@   assert before LabelSelectorAsSelector#2: [canonicalFirst2] called(validateLabelSelectorDuplicate)
 //@   ensures result0 == nil || fresh(result0)
 //@   ensures [none] p.Spec.AllocateTo == nil ==> result0 == nil && result1 == nil
 //@   ensures [made] p.Spec.AllocateTo != nil && result1 == nil ==> result0 != nil && result0.Priority == p.Spec.AllocateTo.Priority && result0.Namespaces != nil
@@ -340,12 +342,14 @@ package config
 //@   modifies fresh []interface{}
 
 //@ func l2AdvertisementFromCR
+//@   assert before selectedNodes: [canonicalFirst] called(validateLabelSelectorDuplicate)
 //@   ensures [made] result1 == nil ==> result0 != nil && fresh(result0)
 //@   ensures [nodes] result1 == nil ==> NodeSet(result0.Nodes, nodes, crdAd.Spec.NodeSelectors)
 //@   ensures [interfaces] result1 == nil ==> sameSlice(result0.Interfaces, crdAd.Spec.Interfaces) && result0.AllInterfaces == (len(crdAd.Spec.Interfaces) == 0)
 //@   modifies []string, fresh *L2Advertisement, fresh map[string]bool, fresh []labels.Selector, fresh []interface{}
 
 //@ func bgpAdvertisementFromCR
+//@   assert before selectedNodes: [canonicalFirst] called(validateLabelSelectorDuplicate)
 //@   requires communities != nil
 //@   ensures [made] result1 == nil ==> result0 != nil && fresh(result0)
 //@   ensures [nodes] result1 == nil ==> NodeSet(result0.Nodes, nodes, crdAd.Spec.NodeSelectors)
@@ -382,3 +386,11 @@ package config
 //@       && result0.Pools.ByName[n].CIDR[i] != result0.Pools.ByName[m].CIDR[j] ==> !Overlap(result0.Pools.ByName[n].CIDR[i], result0.Pools.ByName[m].CIDR[j]))
 //@   ensures [nodeFree] result1 == nil ==> (forall n string, i int :: (n in result0.Pools.ByName) && 0 <= i && i < len(result0.Pools.ByName[n].CIDR) ==> NodeFree(resources.Nodes, result0.Pools.ByName[n].CIDR[i]))
 //@   ensures [failed] result1 != nil ==> result0 == nil
+
+// ---- C18: selectors are compiled from their canonical form ----
+// validateLabelSelectorDuplicate also canonicalises the selectors (it sorts the value lists of match expressions in
+// place); a selector compiled before that depends on the order the values were written in, i.e. on whether the same
+// snapshot was parsed before. peerFromCR (abstracted mode) compiles a peer's node selectors only after that call.
+//@ func peerFromCR
+//@   abstract
+//@   assert before LabelSelectorAsSelector: [canonicalFirst] called(validateLabelSelectorDuplicate)
